@@ -53,6 +53,12 @@ def body_by_key(crate, key, coroutine=False):
     return None
 
 
+def view(crate, key, helpers):
+    """See lib/inline.view: `key` with the named helper functions spliced in (or as is, if they were inlined by hand)."""
+    import inline
+    return inline.view(crate, key, [h for h in helpers])
+
+
 _KC = None
 
 
